@@ -213,7 +213,7 @@ class ElicitationHandler:
             "jsonrpc": "2.0",
             "method": "elicitation/create",
             "id": request_id,
-            "params": params.model_dump(exclude_none=True),
+            "params": params.model_dump(exclude_none=True, by_alias=True),
         }
 
         # Create a future to wait for the response
